@@ -65,11 +65,20 @@ def run(rep: common.Report, tier: str, seed: int):
             py = np.array([rng.uniform(0, Ly) for _ in range(n)])
             layout = f'scattered{n}'
         pz = f(px, py)
+        d = c02.gen_tcfg(rng)
+        d['samplesize'] = (Lx, Ly)
+        if i % 2 == 0 and rng.random() < 0.4:
+            # a compiler asked for compensation before the surface was measured (fresh directory: no POS.txt yet); whatever
+            # that attempt does, the mapping file written afterwards is the one to follow
+            try:
+                with pgm.quiet():
+                    pgm.make_compiler(dict(d, warp_flag=True))
+            except Exception:
+                pass
+            hist['layout']['early-attempt'] = hist['layout'].get('early-attempt', 0) + 1
         with open('POS.txt', 'w') as fh:
             for a, b, c in zip(px, py, pz):
                 fh.write('%.6f %.6f %.6f\n' % (a, b, c))
-        d = c02.gen_tcfg(rng)
-        d['samplesize'] = (Lx, Ly)
         with pgm.quiet():
             Gon = pgm.make_compiler(dict(d, warp_flag=True))
             Goff = pgm.make_compiler(dict(d, warp_flag=False))
